@@ -245,6 +245,16 @@ def test_text_models(seed):
                 g = [bytes(x) for x in g]
             assert g == exp, ("bytes.%s%r on %r: model %r, python %r" % (name, args, data, g, exp))
             n += 1
+        # UTF-8 encoding of symbolic characters
+        for text in ("aé€😀", "\x7f\x80\u07ff\u0800\uffff\U00010000", "plain"):
+            ce = Ctx([])
+            core.CTX = ce
+            ev_ = [z3.Int("e%d" % i) for i in range(len(text))]
+            for v, ch in zip(ev_, text):
+                ce.assume(v == ord(ch))
+            got = SymStr([SymChar(SymInt(v, ub=0x110000)) for v in ev_]).encode("utf-8")
+            assert ce.check() == z3.sat and _conc(got, ce.solver.model()) == text.encode("utf-8"), ("utf-8 encode", text)
+            n += 1
         # strict UTF-8 decoding of symbolic bytes (valid and invalid sequences)
         for raw in (data, "é€😀a".encode()[: 1 + it % 10], bytes([0xC3, 0x28]), bytes([0xE0, 0x80, 0x80]), bytes([0xED, 0xA0, 0x80]), bytes([0xF4, 0x90, 0x80, 0x80]), bytes([0x80]), "añb".encode()):
             cu = Ctx([])
